@@ -73,6 +73,12 @@ func runMC3(algo string, s model3d.Solid, d float64) *model3d.Mesh {
 		return model3d.MarchingCubesC2F(s, d, d, 0, 1)
 	case "MarchingCubesC2F2":
 		return model3d.MarchingCubesC2F(s, 2*d, d, 0, 0)
+	case "MarchingCubesC2F(x10,extra=0)":
+		return model3d.MarchingCubesC2F(s, 10*d, d, 0, 2)
+	case "MarchingCubesC2F(x10,extra=0.001)":
+		return model3d.MarchingCubesC2F(s, 10*d, d, 0.001, 2)
+	case "MarchingCubesC2F(x10,extra=0.05)":
+		return model3d.MarchingCubesC2F(s, 10*d, d, 0.05, 2)
 	}
 	panic("algo")
 }
@@ -209,13 +215,25 @@ func enumMC3(r *ev.Run, dims [][3]int) {
 func largeLattice(r *ev.Run) {
 	sph := &model3d.Sphere{Center: model3d.XYZ(0.1, 0.2, -0.1), Radius: 1}
 	two := model3d.JoinedSolid{&model3d.Sphere{Radius: 0.5}, &model3d.Sphere{Center: model3d.XYZ(2.2, 0.3, 0.4), Radius: 0.4}}
+	// a box and a tilted cylinder: the coarse mesh bevels their edges and rims by up to half a coarse cell, many fine
+	// blocks away from the true surface - the case the coarse-to-fine margin exists for
+	box := model3d.NewRect(model3d.XYZ(-0.7, -0.45, -0.3), model3d.XYZ(0.9, 0.55, 0.62))
+	cyl := &model3d.Cylinder{P1: model3d.XYZ(-0.5, -0.3, -0.4), P2: model3d.XYZ(0.6, 0.4, 0.5), Radius: 0.45}
 	for i, c := range []struct {
 		s     model3d.Solid
 		delta float64
 		probe []model3d.Coord3D
 	}{{sph, 0.03, []model3d.Coord3D{sph.Center, model3d.XYZ(0.9, 0.2, -0.1), model3d.XYZ(1.5, 0, 0)}},
-		{two, 0.035, []model3d.Coord3D{{}, model3d.XYZ(2.2, 0.3, 0.4), model3d.XYZ(1.2, 0, 0)}}} {
-		for _, algo := range []string{"MarchingCubesFilterTrue", "MarchingCubesSearchFilter1"} {
+		{two, 0.035, []model3d.Coord3D{{}, model3d.XYZ(2.2, 0.3, 0.4), model3d.XYZ(1.2, 0, 0)}},
+		{box, 0.025, []model3d.Coord3D{{}, model3d.XYZ(0.85, 0.5, 0.6), model3d.XYZ(1.2, 0, 0)}},
+		{cyl, 0.03, []model3d.Coord3D{{}, model3d.XYZ(0.5, 0.3, 0.4), model3d.XYZ(1.2, 0, 0)}}} {
+		algos := []string{"MarchingCubesFilterTrue", "MarchingCubesSearchFilter1"}
+		if i >= 2 {
+			// coarse-to-fine at ratio 10 with no, a tiny and a small extra margin (the margin is *added* to the
+			// conservative one), judged like every other member: closed, oriented, winding the solid
+			algos = []string{"MarchingCubesC2F(x10,extra=0)", "MarchingCubesC2F(x10,extra=0.001)", "MarchingCubesC2F(x10,extra=0.05)"}
+		}
+		for _, algo := range algos {
 			r.Eval(1)
 			cs := mcCase{Kind: "large", Algo: algo, N: []int{i}}
 			var m *model3d.Mesh
